@@ -1,6 +1,6 @@
 SPECIFICATION MCSpec
 CONSTANTS DecIds = {}
-  Universe <- UniSmall
+  Universe <- UniQuick
   FloatSet <- NoFloats
   MaxLen = 5
   MaxOps = 0
